@@ -21,6 +21,10 @@ through the whole skip-list lattice on the real `save(skip=...)` / `load(skip=..
           introspection, snapshotted before anything is saved, restored in place before every work item and compared after
           every history ("a save must not depend on earlier saves"; a changed mutable is a failure class of its own).
 
+  spellings : the skip argument spelled as list (canonical), tuple, set, with duplicates, bare str, bare type, types
+          first, generator - at save time and at load time, through AutoSerialize.save / load() and through
+          Ptychography.save (the one override in the library that handles skip itself; found by a static scan) on a tiny
+          real reconstruction with a plain nested child, both stores, save_raw_data False / True.
   hybrid    : a nested object that is both AutoSerialize and torch.nn.Module, reached through an attribute: six name sets x
           when {save, load, both} x store. The serializer stores it whole through torch.save, so skipped names survive inside
           it: a registered KNOWN finding, emitted under its own class (relation=skip_reaches_nested_object,
@@ -78,7 +82,7 @@ def type_of(name):
 
     return {
         "ndarray": np.ndarray, "Tensor": torch.Tensor, "int": int, "str": str, "float": float, "list": list, "dict": dict,
-        "bool": bool, "Inner": S.Inner,
+        "bool": bool, "Inner": S.Inner, "Generator": np.random.Generator,
     }[name]
 
 
@@ -208,7 +212,7 @@ def run_names(case, seed, scratch, wd=None, reuse=None):
     return fails, outcome, removed > 0, got
 
 
-def run_subset(item, seed, scratch):
+def run_subset(item, seed, scratch, forms=True):
     """All `when` variants of one name subset in one store + exact equality of load-time and save-time results."""
     fails, points = [], []
     subset, store = item["subset"], item["store"]
@@ -216,9 +220,9 @@ def run_subset(item, seed, scratch):
     variants = [("save", subset, []), ("load", [], subset), ("both", subset, subset)]
     if len(subset) >= 2:
         variants.append(("split", subset[0::2], subset[1::2]))
-    if len(subset) == 1:
+    if forms and len(subset) == 1:
         variants += [("save_str", subset, []), ("load_str", [], subset)]
-    if len(subset) == 2:
+    if forms and len(subset) == 2:
         variants += [("save_tuple", subset, []), ("load_tuple", [], subset)]
     with S.Workdir(scratch, "C14") as wd:
         reuse = {}
@@ -261,10 +265,10 @@ def run_types(case, seed, scratch):
 
 
 # ----------------------------------------------------------------------------- workers
-def eval_subset(item, seed=0, scratch="/tmp"):
+def eval_subset(item, seed=0, scratch="/tmp", forms=True):
     t = Tally()
     state_restore()
-    fails, points = run_subset(item, seed, scratch)
+    fails, points = run_subset(item, seed, scratch, forms=forms)
     for case, outcome, nontrivial in points:
         t.case(key=[case["when"], case["save"], case["load"], case["store"]], nontrivial=nontrivial, outcome=outcome)
         t.extra["name_points"] += 1
@@ -362,6 +366,184 @@ def eval_hybrid(item, seed=0, scratch="/tmp"):
     t.extra["hybrid_points_showing_the_known_defect"] += int(any(c.get("relation") == "skip_reaches_nested_object" for c, _ in f))
     for cls, msg in f:
         t.fail(cls, case, msg)
+    return t
+
+
+# ----------------------------------------------------------------------------- spellings of the skip argument
+# `skip: str | type | Sequence[str | type]`: one skip list can be spelled in many ways. Every spelling must give
+# exactly what the canonical list spelling gives (same surviving attribute set at every level, same values), at
+# save time and at load time, through every entry point: AutoSerialize.save / load() and the overrides found in
+# the library (a static scan of the source tree lists every class that defines its own save/load; the one that
+# handles skip itself, Ptychography.save, is driven on a tiny real reconstruction with a plain nested child hung
+# on it; the names that override appends itself must be skipped exactly when save_raw_data=False).
+# Spellings inside the signature (list, tuple, bare str, bare type, mixed, duplicates) must work: an exception is
+# a failure. Spellings outside it (set, generator) are only counted when the library rejects them.
+SPELL_CONFIGS_PLAIN = {
+    "one_name": (["a"], []), "names": (["a", "t"], []), "one_type": ([], ["ndarray"]), "types": ([], ["str", "Tensor"]), "mixed": (["p"], ["int"]),
+}
+SPELL_CONFIGS_PTYCHO = {
+    "one_name": (["_snapshots"], []), "names": (["_snapshots", "_iter_losses"], []), "one_type": ([], ["Generator"]), "mixed": (["_snapshots"], ["Generator"]),
+}
+OUTSIDE_SIGNATURE = ("set", "generator")
+
+
+def spellings_of(names, types, load_time=False):
+    """[(label, factory)]: every spelling applicable to this content. A factory returns a fresh argument (generators!)."""
+    def items():
+        return list(names) + [type_of(t) for t in types]
+
+    out = [("tuple", lambda: tuple(items())), ("set", lambda: set(items())), ("duplicates", lambda: items() + items())]
+    if len(names) + len(types) == 1:
+        out.append(("bare_str" if names else "bare_type", lambda: items()[0]))
+    if names and types:
+        out.append(("types_first", lambda: [type_of(t) for t in types] + list(names)))
+    if not types:  # the two-pass normalisation of AutoSerialize consumes an iterator in its first pass: names only
+        out.append(("generator", lambda: (x for x in items())))
+    return out
+
+
+def ptycho_child_desc():
+    L, C, O = S.L, S.C, S.O
+    inner = O("NodeA", ("_snapshots", L("arr:f64:(3,)")), v=L("s"), g=L("rng"))
+    return O("Mid", ("_snapshots", C("list", L("i-1"), L("s"))), ("_iter_losses", L("arr:i16:(3,)")), a=L("f0.5"), g=L("rng"), inner=inner)
+
+
+PTYCHO_CHILD = ptycho_child_desc()
+
+
+def build_ptycho_with_child(seed):
+    p = build_ptycho(seed, 0).ptycho
+    p.annotations = S.build(PTYCHO_CHILD, seed)
+    return p
+
+
+def find_save_load_overrides(repo):
+    """Static scan: every class under src/quantem that defines its own save / load (no import needed)."""
+    import ast
+    import os
+
+    found = []
+    root = os.path.join(repo, "src", "quantem")
+    for dp, _, fns in sorted(os.walk(root)):
+        for fn in sorted(fns):
+            if not fn.endswith(".py"):
+                continue
+            path = os.path.join(dp, fn)
+            try:
+                tree = ast.parse(open(path, encoding="utf-8").read())
+            except Exception:
+                continue
+            for node in ast.walk(tree):
+                if isinstance(node, ast.ClassDef):
+                    for b in node.body:
+                        if isinstance(b, ast.FunctionDef) and b.name in ("save", "load"):
+                            args = [a.arg for a in b.args.args + b.args.kwonlyargs]
+                            found.append({"where": os.path.relpath(path, root) + ":" + node.name + "." + b.name, "has_skip_parameter": "skip" in args})
+    return found
+
+
+def run_spelling(item, seed, scratch):
+    """One (entry point, configuration, when, store[, save_raw_data]): the canonical list spelling against the
+    pruned oracle, then every other spelling against the canonical result. Returns (fails, points, rejected)."""
+    entry, cfg, when, store = item["entry"], item["config"], item["when"], item["store"]
+    raw = item.get("raw", False)
+    table = SPELL_CONFIGS_PLAIN if entry == "AutoSerialize.save" else SPELL_CONFIGS_PTYCHO
+    names, types = table[cfg]
+    tt = tuple(type_of(t) for t in types)
+    fails, points, rejected = [], [], 0
+    state_restore()
+    label = f"{entry} config={cfg} (names={names} types={types}) when={when} store={store}" + (f" save_raw_data={raw}" if entry != "AutoSerialize.save" else "")
+
+    def live():
+        return S.build(GRAPH, seed) if entry == "AutoSerialize.save" else build_ptycho_with_child(seed)
+
+    def oracle():
+        x = live()
+        if entry == "AutoSerialize.save":
+            prune(x, set(names), tt)
+        else:
+            prune_ptycho(x, set(names) | (set() if raw else set(RAW_NAMES)), tt)
+        return x
+
+    def do(arg, wd, tag):
+        """save + load with the skip argument `arg()` at the requested time. ('ok', y) | (symptom, exc)."""
+        p = S.target(wd, store, tag)
+        kw = {"skip": arg()} if when == "save" else {}
+        try:
+            with S.quiet():
+                if entry == "AutoSerialize.save":
+                    live().save(p, store=store, **kw)
+                else:
+                    live().save(p, store=store, save_raw_data=raw, **kw)
+        except Exception as e:
+            return "save_raises", e
+        try:
+            with S.quiet():
+                y = S.q_load(p, skip=arg()) if when == "load" else S.q_load(p)
+        except Exception as e:
+            return "load_raises", e
+        if entry != "AutoSerialize.save" and "_dataset_metadata" in vars(y):
+            delattr(y, "_dataset_metadata")  # presence is judged in the history part; content is not claimed
+        return "ok", y
+
+    with S.Workdir(scratch, "C14") as wd:
+        st, canon = do(lambda: list(names) + list(tt), wd, "canon")
+        base_cls = {"relation": "skip_spelling_equals_list", "entry": entry, "when": when}
+        if st != "ok":
+            fails.append((dict(base_cls, spelling="list", symptom=st, exc=type(canon).__name__), f"{label}: the list spelling itself: {st.replace('_', ' ')} {type(canon).__name__}: {str(canon)[:200]}"))
+            return fails, points, rejected
+        d = S.diff(oracle(), canon, slack=True, root="obj", limit=8)
+        points.append(("list", sorted(vars(canon))))
+        if d:
+            c = _cls(d[0], "skip_spelling_equals_list", when)
+            c.update(entry=entry, spelling="list")
+            fails.append((c, f"{label}: the list spelling differs from the in-memory object with those attributes removed: {S.fmt(d)}"))
+        for sp, factory in spellings_of(names, types):
+            st, y = do(factory, wd, sp)
+            if st != "ok":
+                if sp in OUTSIDE_SIGNATURE:
+                    rejected += 1
+                    points.append((sp, [st]))
+                    continue
+                fails.append((dict(base_cls, spelling=sp, symptom=st, exc=type(y).__name__), f"{label}: spelling {sp}: {st.replace('_', ' ')} {type(y).__name__}: {str(y)[:200]} (the list spelling works)"))
+                points.append((sp, [st]))
+                continue
+            points.append((sp, sorted(vars(y))))
+            d = S.diff(canon, y, slack=False, root="obj", limit=8)
+            if d:
+                c = _cls(d[0], "skip_spelling_equals_list", when)
+                c.update(entry=entry, spelling=sp)
+                fails.append((c, f"{label}: spelling {sp} gives another object than the list spelling (expected = list spelling): {S.fmt(d)}"))
+    return fails, points, rejected
+
+
+def enumerate_spellings(quick):
+    items = []
+    for cfg, (names, types) in SPELL_CONFIGS_PLAIN.items():
+        for st in STORES:
+            items.append({"entry": "AutoSerialize.save", "config": cfg, "when": "save", "store": st})
+            if not types:  # load-time skipping is claimed for names
+                items.append({"entry": "AutoSerialize.save", "config": cfg, "when": "load", "store": st})
+    for cfg, (names, types) in SPELL_CONFIGS_PTYCHO.items():
+        combos = [("zip", False), ("dir", True)] if quick else [(st, raw) for st in STORES for raw in (False, True)]
+        for st, raw in combos:
+            items.append({"entry": "Ptychography.save", "config": cfg, "when": "save", "store": st, "raw": raw})
+            if not types and (not quick or not raw):
+                items.append({"entry": "Ptychography.save", "config": cfg, "when": "load", "store": st, "raw": raw})
+    return items
+
+
+def eval_spelling(item, seed=0, scratch="/tmp"):
+    t = Tally()
+    fails, points, rejected = run_spelling(item, seed, scratch)
+    for sp, outcome in points:
+        t.case(key=["spelling", item, sp], nontrivial=True, outcome=outcome)
+        t.extra["spelling_points"] += 1
+    t.extra["spellings_outside_the_signature_rejected"] += rejected
+    for cls, msg in fails:
+        t.fail(cls, dict(item, family="spelling", seed=seed), msg)
+    if item["config"] == "one_name" and item["when"] == "save":
+        t.sample({"family": "spelling", "entry": item["entry"], "config": item["config"], "when": item["when"], "store": item["store"], "raw": item.get("raw"), "spellings": [p[0] for p in points], "observed": "every spelling equals the list spelling" if not fails else f"{len(fails)} failure(s)"}, cap=1)
     return t
 
 
@@ -680,7 +862,8 @@ def run(ctx):
         raise Broken(f"name universe no longer has names at 0/1/2/3 depths: {removed}")
     subs = subsets(UNIVERSE)
     items = [{"subset": s, "store": st} for s in subs for st in STORES]
-    m1 = ctx.pmap(eval_subset, items, chunk=2, label="name subsets", seed=ctx.seed, scratch=ctx.scratch)
+    # the bare-str / tuple forms of the lattice run in the thorough tier only: the spelling family below covers them in both
+    m1 = ctx.pmap(eval_subset, items, chunk=2, label="name subsets", seed=ctx.seed, scratch=ctx.scratch, forms=not ctx.quick)
     npairs = 0
     if not ctx.quick:
         # every assignment of each name to {nowhere, save, load}: all disjoint (save, load) pairs not yet covered above
@@ -707,6 +890,10 @@ def run(ctx):
     m2 = ctx.pmap(eval_types, titems, chunk=4, label="type lists", seed=ctx.seed, scratch=ctx.scratch)
     yitems = [{"names": n, "when": w, "store": st} for n in HYBRID_NAME_SETS for w in ("save", "load", "both") for st in STORES]
     m4 = ctx.pmap(eval_hybrid, yitems, chunk=1, label="hybrid nested object", seed=ctx.seed, scratch=ctx.scratch)
+    pitems = enumerate_spellings(ctx.quick)
+    m5 = ctx.pmap(eval_spelling, pitems, chunk=1, label="skip spellings", seed=ctx.seed, scratch=ctx.scratch)
+    overrides = find_save_load_overrides(ctx.repo)
+    undriven = [o["where"] for o in overrides if o["has_skip_parameter"] and not o["where"].endswith(("serialize.py:AutoSerialize.save", "ptychography.py:Ptychography.save"))]
     hitems = enumerate_save_histories(ctx.quick)
     m3 = ctx.pmap(eval_save_history, hitems, chunk=2, label="save histories", seed=ctx.seed, scratch=ctx.scratch)
     ctx.coverage.update(
@@ -718,6 +905,15 @@ def run(ctx):
         bounds={"name_subsets": len(subs), "type_subsets_max_size": 2, "type_subsets": len(tsubs), "name_x_type_pairs": len(TYPE_NAMES) * len(UNIVERSE) * 2, "disjoint_pairs": npairs},
         relations=["skip_names (when=save: the recorded list is honoured by a plain load)", "load_time_equals_save_time", "skip_types",
                    "history:save_independent_of_earlier_saves", "history:from_file_attribute_names", "history:module_level_state_unchanged"],
+        skip_spellings={
+            "entry_points_driven": ["AutoSerialize.save / load()", "Ptychography.save / load()"], "save_load_overrides_found_in_source": overrides,
+            "overrides_with_a_skip_parameter_not_driven": undriven,
+            "configurations": {"AutoSerialize.save": {k: {"names": v[0], "types": v[1]} for k, v in SPELL_CONFIGS_PLAIN.items()},
+                               "Ptychography.save": {k: {"names": v[0], "types": v[1]} for k, v in SPELL_CONFIGS_PTYCHO.items()}},
+            "spellings": ["list (canonical)", "tuple", "set", "duplicates", "bare_str", "bare_type", "types_first", "generator (names only)"],
+            "ptychography_child": S.show(PTYCHO_CHILD), "items": len(pitems), "points": int(m5.extra["spelling_points"]),
+            "spellings_outside_the_signature_rejected": int(m5.extra["spellings_outside_the_signature_rejected"]),
+        },
         hybrid_nested_object={
             "graph": S.show(HYBRID_GRAPH), "name_sets": HYBRID_NAME_SETS, "when": ["save", "load", "both"], "points": int(m4.extra["hybrid_points"]),
             "points_showing_the_known_defect": int(m4.extra["hybrid_points_showing_the_known_defect"]),
@@ -734,6 +930,10 @@ def run(ctx):
         raise Broken(f"enumeration incomplete: {m1.extra['name_points']} name points, {m2.extra['type_points']} type points")
     if int(m3.extra["save_histories_autoserialize"]) + int(m3.extra["save_histories_ptychography"]) != len(hitems) or len(m3.outcomes) < 10:
         raise Broken(f"save-history enumeration degenerate: {dict(m3.extra)}, {len(m3.outcomes)} outcomes for {len(hitems)} histories")
+    if undriven:
+        ctx.seam_missing.append(f"save/load overrides with a skip parameter that this check does not drive: {undriven}")
+    if int(m5.extra["spelling_points"]) < 3 * len(pitems):
+        raise Broken(f"spelling family degenerate: {m5.extra['spelling_points']} points for {len(pitems)} items")
     if int(m4.extra["hybrid_points"]) != len(yitems):
         raise Broken(f"hybrid family incomplete: {m4.extra['hybrid_points']} of {len(yitems)} points")
     if not any("default#" in x for x in slots):
@@ -745,6 +945,20 @@ def run(ctx):
 def replay(ctx, case):
     seed = case.get("seed", ctx.seed)
     print(f"  graph: {S.show(GRAPH)}")
+    if case["family"] == "spelling":
+        import importlib
+
+        for mn in STATE_MODULES:
+            importlib.import_module(mn)
+        state_snapshot()
+        fails, points, rejected = run_spelling(case, seed, ctx.scratch)
+        for cls, msg in fails:
+            ctx.fail(cls, case, msg)
+        print(f"  entry={case['entry']} config={case['config']} when={case['when']} store={case['store']} raw={case.get('raw')}")
+        for sp, outcome in points:
+            print(f"  spelling {sp:12s}: top-level attributes {outcome}")
+        print(f"  expected: every spelling gives the object of the list spelling; observed: {len(fails)} failure(s), {rejected} spelling(s) outside the signature rejected")
+        return
     if case["family"] == "hybrid":
         import importlib
 
